@@ -17,7 +17,8 @@ RULE_TEXT = ("C08-C: the payload class of each quoted-string recogniser denotes 
              "application of one, the error kind Incomplete is either propagated or excluded by an explicit kind test on "
              "that path - never dropped by optional/or_else/unwrap_or/map_err; optional() wraps no such parser. "
              "C08-V: the Value delivered is exactly the taken span. C08-R: run answers Incomplete silently with the "
-             "input unchanged and starts every call at the root.")
+             "input unchanged and starts every call at the root."
+             " C08-PR: the contracts of the parser combinators the skeleton builds on are read from their bodies - satisfy (accept first byte iff pred / soft error / Incomplete on empty), take_while (never fails; longest prefix, position() form or counting-loop form), optional (never fails; Some(value) or input untouched), tag(b) = satisfy(== b).")
 
 
 def run(ck):
